@@ -279,6 +279,10 @@ class IncrementalExecutor(Executor[DeliveryGroupMap]):
         """
         work = self.get_incremental_work()
         if not work.tasks and not work.streams:
+            # abort stream item queues of early executed nested work whose
+            # parents have been filtered out, since nobody will consume them
+            for queue in self._stream_item_queues:
+                self.settle_abort_result(queue.abort())
             return super().build_response(data)
 
         errors = self.collected_errors.errors
